@@ -1030,6 +1030,33 @@ func c04Oracle(r *Rng, tier string, rep *Report) {
 		}
 		rep.Eval(src, nontrivial, bucket)
 	}
+	// hand-written programs outside the generator's grammar, with the partition ECMAScript prescribes
+	for _, w := range []struct {
+		key, src string
+		want     []int64
+	}{
+		// a class static block is a var scope of its own
+		{"c04-es:class-static-block-var", "class A{static{var x;}}x;", []int64{0, 1, 2}},
+		{"c04-es:class-static-block-let", "class A{static{let x;x;}}x;", []int64{0, 1, 1, 2}},
+		// labels and property names are not variables
+		{"c04-es:label", "a:{break a;}a;", []int64{0}},
+		{"c04-es:property", "a.b;({b:a});b;", []int64{0, 0, 1}},
+		// class declaration: heritage is resolved outside, methods inside
+		{"c04-es:class-decl", "class A extends B{m(A){A;B;}}A;B;", []int64{0, 1, 2, 2, 1, 0, 1}},
+		// while / do / if / switch bodies are blocks
+		{"c04-es:stmt-blocks", "let a;if(a){let a;a;}else{a;}switch(a){case a:let b;b;}b;", []int64{0, 0, 1, 1, 0, 0, 0, 2, 2, 3}},
+	} {
+		p := c04ParseJS(w.src)
+		if p.pan != nil || p.err != nil {
+			rep.Violate(w.key+":parse", fmt.Sprintf("%q does not parse: %v %v", w.src, p.err, p.pan), map[string]interface{}{"source": w.src})
+			continue
+		}
+		got, _ := c04CanonVars(p.roots)
+		if fmtInts(got) != fmtInts(w.want) {
+			rep.Violate(w.key, fmt.Sprintf("%q: ECMAScript partition %v, *Var partition %v", w.src, w.want, got), map[string]interface{}{"source": w.src})
+		}
+		rep.Eval(w.src, true, "hand-written")
+	}
 	c04EnumProgs(3, func(l []*c04Item) { check(l, "exhaustive") })
 	for i := 0; i < n; i++ {
 		check(c04GenProgram(r, 4+i%40, i%5 == 0), "random")
